@@ -549,6 +549,12 @@ def c10(tier, seed, only):
             continue
         for state in ("root", "after_choice"):
             jobs.append(dict(key="shave_vs_bc", params=dict(model=name, state=state), label=f"shave_vs_bc/{name}/{state}", tag=f"{name}/{state}"))
+    # decision domains that are not a prefix of the shared domains (auxiliary variables stored first, a permuted subset)
+    for name, dec in (("alldiff3", [1, 2]), ("alldiff_lt", [2, 1]), ("max_eq", [1, 2]), ("lin3", [2]), ("circuit3", [1, 2]), ("queens_like", [1])):
+        if only and name not in only:
+            continue
+        for state in ("root", "after_choice"):
+            jobs.append(dict(key="shave_vs_bc", params=dict(model=name, state=state, decision=dec), label=f"shave_vs_bc/{name}/{state}/decision={dec}", tag=f"{name}/{state}/{dec}"))
     jobs.append(dict(key="shave_bound", params=dict(height=5), label="shave_bound/BC-contract-stub"))
     rs = chk.explore_many(jobs)
     for job, r in list(zip(jobs, rs))[:-1]:
@@ -700,5 +706,5 @@ def c20(tier, seed, only):
     chk.functions.update(["the constructors of QueensProblem, LatinSquareProblem, LatinSquareRCProblem, Quasigroup5Problem, MagicSquareProblem, MagicSequenceProblem, GolombProblem, BIBDProblem, SchurLemmaProblem, SportsTournamentSchedulingProblem, KnapsackProblem, CircuitProblem, TSPProblem, SudokuProblem, AlphaProblem, DonaldProblem"])
     chk.bounds = dict(sizes="queens<=6/8, latin<=3/4, quasigroup5 5/5-7, magic square 3/3-4, magic sequence<=8/10, golomb 3-5/3-6 marks, bibd (6,10,5,3,2) (7,7,3,3,1), schur 3,6,9 / ..14, sports 4 / 4,6, knapsack shipped, circuit<=4/6, tsp shipped 4x4, sudoku all givens (validity) + shipped grid, alpha, donald (quick/thorough)")
     chk.assumptions += ["relation encoders (nusym/relations.py) are the documented relations; they are validated against the repository's unit-test vectors by the propagator checks", "instance sizes beyond the list, and that the search returns the objects at large sizes, are outside the claim", "the Golomb custom consistency algorithm: its pruning step is executed symbolically from every state of the search invariant (4-5 marks quick, 6 thorough; BC stubbed: no ruler of the box is lost, indices in range); a counterexample is reported only if the real solver then returns a wrong optimum on 4..8 marks"]
-    batch = [dict(i, harness="models") for i in rep.instances if (i.get("count") is not None or i.get("optimum") is not None)]
+    batch = [dict(i, harness="models") for i in rep.instances if (i.get("count") is not None or i.get("optimum") is not None or i.get("all_valid"))]
     return chk.finish({"models": batch}, both_modes=False, validate_jit_only=True)
